@@ -341,11 +341,16 @@ def _case_body(ch, out, cfg, content, hot, line, outmode, img, vals, fn, files):
                 out.stats["oracle:scale_exact"] += 1
                 eb = (np.float32(k) * r0.bkg)
                 er = (np.float32(abs(k)) * r0.rms)
-                okb = np.array_equal(rk.bkg, eb, equal_nan=True)
-                okr = np.array_equal(rk.rms, er, equal_nan=True)
-                if not (okb and okr):
-                    nb = int(np.count_nonzero(~((rk.bkg == eb) | (np.isnan(rk.bkg) & np.isnan(eb)))))
-                    nr = int(np.count_nonzero(~((rk.rms == er) | (np.isnan(rk.rms) & np.isnan(er)))))
+
+                def mismatches(actual, expect):
+                    # exact, except where the float32 result leaves the normal range (|x| < 2^-100): the cast of the
+                    # float64 map and the float32 product round differently among denormals, there only smallness is
+                    # required
+                    tiny = np.abs(expect) < 2.0 ** -100
+                    same = (actual == expect) | (np.isnan(actual) & np.isnan(expect)) | (tiny & (np.abs(actual) < 2.0 ** -99))
+                    return int(np.count_nonzero(~same))
+                nb, nr = mismatches(rk.bkg, eb), mismatches(rk.rms, er)
+                if nb or nr:
                     out.violation("scale", "image x %g: %d background and %d noise pixels are not exactly k*bkg / |k|*rms "
                                   "[layout %s]" % (k, nb, nr, r0.layout), sig=None, cfg=_cfg_str(cfg), layout=str(r0.layout))
                     return out
